@@ -114,8 +114,9 @@ structure ClassSrc where
   addl : Option Bool := none
   ignoreNone : Option Bool := none
   immutable : Option Bool := none
-  /-- member names demanded by an `@keys_of(...)` decorator -/
-  keysOf : List String := []
+  /-- `@keys_of(E₁, …, Eₖ)`: the member names of each enum class, in argument order
+      (`[]` = no decorator) -/
+  keysOf : List (List String) := []
 deriving Repr, Inhabited
 
 /-- constructor signature: required parameters (a set: their order comes from a Python `set`),
@@ -514,9 +515,10 @@ def blockConstCheck (w : World) (p : String × SrcEntry) : R Unit :=
 def sigCheck (w : World) (src : ClassSrc) : R Unit :=
   if (sigOf w src).req.any (fun n => (sigOf w src).opt.contains n) then .error .valueErr else okU
 
-/-- `@keys_of(E)`: "missing fields" -/
+/-- `@keys_of(E₁, …, Eₖ)`: the member names of *every* enum class must be field names (own or
+    inherited), else "missing fields" -/
 def keysOfCheck (w : World) (src : ClassSrc) : R Unit :=
-  if src.keysOf.all (fun n => ((allFieldsOf w src).map (·.1)).contains n) then okU
+  if src.keysOf.all (fun e => e.all fun n => ((allFieldsOf w src).map (·.1)).contains n) then okU
   else .error .typeErr
 
 def checks (O : Oracles) (w : World) (src : ClassSrc) : List (R Unit) :=
